@@ -50,6 +50,8 @@ VARIABLES tclock,
           stray,       \* tags named by peer frames while no request carried them, since the last
                        \* quiescent point: the client may match such a frame with a request it tags
                        \* before it gets to process the frame (not observable from outside)
+          qtags,       \* tags the client has given to requests that it has not written yet (Tagged event;
+                       \* empty when the tag is not observable at hand-in)
           held,        \* tags written and not named by a peer frame read after the write (pessimistic
                        \* view used for the bound; `unanswered` is the optimistic one used for uniqueness)
           peak,        \* peak number of tags in use on this connection
@@ -57,11 +59,11 @@ VARIABLES tclock,
           maxTag,      \* highest tag written on this connection
           written,     \* number of request frames written (all connections)
           nreq         \* number of requests handed in
-tvars_ == <<tclock, reqs, delivered, failed, preFail, errOnly, ownerClosed, signalled, everFaulted, silentSince, beforeSilence, unanswered, recent, stray, held, peak, aged, maxTag, written, nreq>>
+tvars_ == <<tclock, reqs, delivered, failed, preFail, errOnly, ownerClosed, signalled, everFaulted, silentSince, beforeSilence, unanswered, recent, stray, qtags, held, peak, aged, maxTag, written, nreq>>
 
 TInit0(t0) ==
   /\ tclock = t0 /\ reqs = {} /\ delivered = <<>> /\ failed = FALSE /\ preFail = {} /\ errOnly = {}
-  /\ ownerClosed = FALSE /\ signalled = FALSE /\ everFaulted = FALSE /\ silentSince = -1 /\ beforeSilence = {} /\ unanswered = {} /\ recent = {} /\ stray = {} /\ held = {} /\ peak = 0 /\ aged = 0 /\ maxTag = 0
+  /\ ownerClosed = FALSE /\ signalled = FALSE /\ everFaulted = FALSE /\ silentSince = -1 /\ beforeSilence = {} /\ unanswered = {} /\ recent = {} /\ stray = {} /\ qtags = {} /\ held = {} /\ peak = 0 /\ aged = 0 /\ maxTag = 0
   /\ written = 0 /\ nreq = 0
 
 Mono(t) == IF t >= tclock THEN "ok" ELSE "harness.clockMonotone"
@@ -77,14 +79,14 @@ OpenedUpd(ok, t) ==
   /\ signalled' = IF ok THEN FALSE ELSE signalled
   /\ ownerClosed' = ownerClosed      \* the driver never re-opens a transport its owner closed
   /\ UNCHANGED <<everFaulted, silentSince, beforeSilence>>
-  /\ UNCHANGED <<reqs, delivered, unanswered, recent, stray, held, peak, aged, maxTag, written, nreq>>
+  /\ UNCHANGED <<reqs, delivered, unanswered, recent, stray, qtags, held, peak, aged, maxTag, written, nreq>>
 
 ReqCheck(r, t) == IF Mono(t) # "ok" THEN Mono(t) ELSE IF r \in reqs THEN "harness.freshReq" ELSE "ok"
 ReqUpd(r, t) == /\ tclock' = t /\ reqs' = reqs \cup {r} /\ nreq' = nreq + 1
                 \* a tag is taken when the request is handed in, possibly long before it is written (blocked
                 \* writes): everything held plus everything handed in and not yet written may be in use now
                 /\ peak' = LET n == Cardinality(held \cup recent) + (nreq + 1 - written) IN IF n > peak THEN n ELSE peak
-                /\ UNCHANGED <<delivered, failed, preFail, errOnly, ownerClosed, signalled, everFaulted, silentSince, beforeSilence, unanswered, recent, stray, held, aged, maxTag, written>>
+                /\ UNCHANGED <<delivered, failed, preFail, errOnly, ownerClosed, signalled, everFaulted, silentSince, beforeSilence, unanswered, recent, stray, qtags, held, aged, maxTag, written>>
 
 \* exactly once: never a second message on a request's stack; after a connection failure the
 \* one message an in-flight request gets must be an error
@@ -97,7 +99,7 @@ DeliverCheck(r, isErr, t) ==
 DeliverUpd(r, isErr, t) ==
   /\ tclock' = t
   /\ delivered' = IF r \in DOMAIN delivered THEN [delivered EXCEPT ![r] = @ + 1] ELSE delivered @@ (r :> 1)
-  /\ UNCHANGED <<reqs, failed, preFail, errOnly, ownerClosed, signalled, everFaulted, silentSince, beforeSilence, unanswered, recent, stray, held, peak, aged, maxTag, written, nreq>>
+  /\ UNCHANGED <<reqs, failed, preFail, errOnly, ownerClosed, signalled, everFaulted, silentSince, beforeSilence, unanswered, recent, stray, qtags, held, peak, aged, maxTag, written, nreq>>
 
 \* must = requests handed in and not yet delivered; errs = those whose reply the peer had not sent
 FailSeenCheck(must, errs, t) == Mono(t)
@@ -106,15 +108,15 @@ FailSeenUpd(must, errs, t) ==
   /\ failed' = TRUE
   /\ preFail' = IF failed THEN preFail ELSE {must[i] : i \in DOMAIN must} \cap InFlight
   /\ errOnly' = IF failed THEN errOnly ELSE {errs[i] : i \in DOMAIN errs} \cap InFlight
-  /\ UNCHANGED <<reqs, delivered, ownerClosed, signalled, everFaulted, silentSince, beforeSilence, unanswered, recent, stray, held, peak, aged, maxTag, written, nreq>>
+  /\ UNCHANGED <<reqs, delivered, ownerClosed, signalled, everFaulted, silentSince, beforeSilence, unanswered, recent, stray, qtags, held, peak, aged, maxTag, written, nreq>>
 
 OwnerCloseCheck(t) == Mono(t)
 OwnerCloseUpd(t) == /\ tclock' = t /\ ownerClosed' = TRUE
-                    /\ UNCHANGED <<reqs, delivered, failed, preFail, errOnly, signalled, everFaulted, silentSince, beforeSilence, unanswered, recent, stray, held, peak, aged, maxTag, written, nreq>>
+                    /\ UNCHANGED <<reqs, delivered, failed, preFail, errOnly, signalled, everFaulted, silentSince, beforeSilence, unanswered, recent, stray, qtags, held, peak, aged, maxTag, written, nreq>>
 
 FaultedCheck(t) == Mono(t)
 FaultedUpd(t) == /\ tclock' = t /\ signalled' = TRUE /\ everFaulted' = TRUE /\ UNCHANGED <<silentSince, beforeSilence>>
-                 /\ UNCHANGED <<reqs, delivered, failed, preFail, errOnly, ownerClosed, unanswered, recent, stray, held, peak, aged, maxTag, written, nreq>>
+                 /\ UNCHANGED <<reqs, delivered, failed, preFail, errOnly, ownerClosed, unanswered, recent, stray, qtags, held, peak, aged, maxTag, written, nreq>>
 
 \* At a quiescent point after a failure (not an owner-initiated Close): every request that was in
 \* flight has had its one message, the transport reports Closed, and the fault signal has fired.
@@ -135,7 +137,7 @@ QuietCheck(st, t) ==
   ELSE "ok"
 \* stray frames stay matchable while a handed-in request has not been written yet (blocked writes)
 QuietUpd(st, t) == /\ tclock' = t /\ recent' = {} /\ stray' = (IF nreq > written THEN stray ELSE {})
-                   /\ UNCHANGED <<reqs, delivered, failed, preFail, errOnly, ownerClosed, signalled, everFaulted, silentSince, beforeSilence, unanswered, held, peak, aged, maxTag, written, nreq>>
+                   /\ UNCHANGED <<reqs, delivered, failed, preFail, errOnly, ownerClosed, signalled, everFaulted, silentSince, beforeSilence, unanswered, qtags, held, peak, aged, maxTag, written, nreq>>
 
 \* The driver issues a probe only when the transport reports Open with nothing in flight.
 ProbeCheck(wrote, t) ==
@@ -154,7 +156,7 @@ SilenceUpd(on, t) ==
   /\ tclock' = t
   /\ silentSince' = IF on THEN (IF silentSince >= 0 THEN silentSince ELSE t) ELSE -1
   /\ beforeSilence' = IF on THEN (IF silentSince >= 0 THEN beforeSilence ELSE reqs) ELSE {}
-  /\ UNCHANGED <<reqs, delivered, failed, preFail, errOnly, ownerClosed, signalled, everFaulted, unanswered, recent, stray, held, peak, aged, maxTag, written, nreq>>
+  /\ UNCHANGED <<reqs, delivered, failed, preFail, errOnly, ownerClosed, signalled, everFaulted, unanswered, recent, stray, qtags, held, peak, aged, maxTag, written, nreq>>
 
 FrameOutCheck(type, tag, t) ==
   IF Mono(t) # "ok" THEN Mono(t)
@@ -167,11 +169,12 @@ FrameOutUpd(type, tag, t) ==
   /\ IF type = 2
      THEN /\ unanswered' = IF tag \in stray THEN unanswered ELSE unanswered \cup {tag}
           /\ stray' = stray \ {tag}
+          /\ qtags' = qtags \ {tag}
           /\ held' = held \cup {tag}
           /\ peak' = LET n == Cardinality(held \cup recent \cup {tag}) IN IF n > peak THEN n ELSE peak
           /\ maxTag' = IF tag > maxTag THEN tag ELSE maxTag
           /\ written' = written + 1 /\ UNCHANGED aged
-     ELSE UNCHANGED <<unanswered, stray, held, peak, aged, maxTag, written>>
+     ELSE UNCHANGED <<unanswered, stray, qtags, held, peak, aged, maxTag, written>>
   /\ UNCHANGED <<reqs, delivered, failed, preFail, errOnly, ownerClosed, signalled, everFaulted, silentSince, beforeSilence, recent, nreq>>
 
 FrameInCheck(type, tag, t) == Mono(t)
@@ -180,8 +183,10 @@ FrameInUpd(type, tag, t) ==
   /\ unanswered' = IF IsAnswer(type) THEN unanswered \ {tag} ELSE unanswered
   /\ recent' = IF tag \in held THEN recent \cup {tag} ELSE recent
   /\ held' = held \ {tag}
-  /\ stray' = IF tag \notin unanswered THEN stray \cup {tag} ELSE stray
-  /\ UNCHANGED <<reqs, delivered, failed, preFail, errOnly, ownerClosed, signalled, everFaulted, silentSince, beforeSilence, peak, aged, maxTag, written, nreq>>
+  \* a frame naming a tag that a handed-in, not yet written request holds cannot be the answer to that
+  \* request (the peer has not seen it): it is no excuse for that request's tag being in use twice later
+  /\ stray' = IF tag \notin unanswered /\ tag \notin qtags THEN stray \cup {tag} ELSE stray
+  /\ UNCHANGED <<reqs, delivered, failed, preFail, errOnly, ownerClosed, signalled, everFaulted, silentSince, beforeSilence, qtags, peak, aged, maxTag, written, nreq>>
 
 \* tag consumption is bounded by peak concurrency (+ requests that never reached the wire)
 Bounded == maxTag <= 1 + peak + (nreq - written) + aged
@@ -191,8 +196,14 @@ ReopenCheck(t) ==
   ELSE IF On("C11") /\ ~Bounded THEN "C11.bounded"
   ELSE "ok"
 ReopenUpd(t) ==
-  /\ tclock' = t /\ unanswered' = {} /\ recent' = {} /\ stray' = {} /\ held' = {} /\ peak' = 0 /\ aged' = 0 /\ maxTag' = 0 /\ written' = 0 /\ nreq' = 0
+  /\ tclock' = t /\ unanswered' = {} /\ recent' = {} /\ stray' = {} /\ qtags' = {} /\ held' = {} /\ peak' = 0 /\ aged' = 0 /\ maxTag' = 0 /\ written' = 0 /\ nreq' = 0
   /\ UNCHANGED <<reqs, delivered, failed, preFail, errOnly, ownerClosed, signalled, everFaulted, silentSince, beforeSilence>>
+
+\* the client has given request r the tag (observed on the message's properties; the request may still be queued)
+TaggedCheck(r, tag, t) == Mono(t)
+TaggedUpd(r, tag, t) ==
+  /\ tclock' = t /\ qtags' = qtags \cup {tag}
+  /\ UNCHANGED <<reqs, delivered, failed, preFail, errOnly, ownerClosed, signalled, everFaulted, silentSince, beforeSilence, unanswered, recent, stray, held, peak, aged, maxTag, written, nreq>>
 
 \* The harness fast-forwards the connection's tag counter to k: the state of a long-lived connection on which
 \* tags up to k are still reserved (requests that timed out and were never answered), without executing
@@ -200,7 +211,7 @@ ReopenUpd(t) ==
 AgeCheck(k, t) == IF Mono(t) # "ok" THEN Mono(t) ELSE IF k < maxTag THEN "harness.ageBackwards" ELSE "ok"
 AgeUpd(k, t) ==
   /\ tclock' = t /\ aged' = k
-  /\ UNCHANGED <<reqs, delivered, failed, preFail, errOnly, ownerClosed, signalled, everFaulted, silentSince, beforeSilence, unanswered, recent, stray, held, peak, maxTag, written, nreq>>
+  /\ UNCHANGED <<reqs, delivered, failed, preFail, errOnly, ownerClosed, signalled, everFaulted, silentSince, beforeSilence, unanswered, recent, stray, qtags, held, peak, maxTag, written, nreq>>
 
 EndCheck(t) == ReopenCheck(t)
 EndUpd(t) == QuietUpd(0, t)
